@@ -105,6 +105,7 @@ impl Prop for C14 {
                 let modes: &[bool] = if case.cfg.enc() { &[false, true] } else { &[false] };
                 for &auth in modes {
                     let out = s.repair(img.clone(), &rcfg, auth, &ocfg, &Sched::Full);
+                    crate::seams::fired(if n == *mark { "crash_at_flush" } else { "crash_after_flush" });
                     ctx.eval();
                     let cls = format!("{}|auth={auth}", if case.cfg.comp() { "comp" } else { "nocomp" });
                     let fault = Fault::Cut { n };
